@@ -33,6 +33,8 @@ func main() {
 		replay(os.Args[2:])
 	case "conc":
 		conc(os.Args[2:])
+	case "featsweep":
+		featsweep(os.Args[2:])
 	default:
 		fmt.Fprintln(os.Stderr, "unknown sub-command", os.Args[1])
 		os.Exit(2)
@@ -60,7 +62,34 @@ func genCases(seed int64, n, length int, scale string, multi bool, features stri
 	for i := range cases {
 		cs := seed*1000003 + int64(i)
 		g := drive.NewGen(cs, "l1")
-		c := drive.Case{N: i + 1, Seed: cs, Scale: scale, Ops: g.History(length)}
+		c := drive.Case{N: i + 1, Seed: cs, Scale: scale}
+		if multi {
+			// three ledgers with the same account names, references and idempotency keys: l1 and l2 share
+			// bucket b1 (l2 is created in the middle of the history, so l1 stops being alone in its bucket),
+			// l3 is alone in b2
+			mid := 2 + int(cs%3)
+			gens := map[string]*drive.Gen{"l1": g, "l2": drive.NewGen(cs+7, "l2"), "l3": drive.NewGen(cs+13, "l3")}
+			steps := map[string]int{}
+			pick := drive.NewGen(cs+29, "pick")
+			for k := 0; k < length; k++ {
+				names := []string{"l1", "l3"}
+				if k >= mid {
+					names = append(names, "l2")
+				}
+				ln := names[pick.R.Intn(len(names))]
+				op := gens[ln].Next(steps[ln])
+				steps[ln]++
+				op.Now = 1 + k/2 // one shared clock
+				if op.Ts > 9 {
+					op.Ts = 9
+				}
+				c.Ops = append(c.Ops, op)
+			}
+			c.Ledgers = []drive.CaseLedger{{Name: "l1", Bucket: "b1"}, {Name: "l2", Bucket: "b1", CreateAt: mid}, {Name: "l3", Bucket: "b2"}}
+			cases[i] = c
+			continue
+		}
+		c.Ops = g.History(length)
 		var feat map[string]string
 		switch features {
 		case "default":
@@ -83,9 +112,10 @@ func seq(args []string) {
 	casesOut := fs.String("cases-out", "", "")
 	features := fs.String("features", "default", "default | sweep")
 	workers := fs.Int("workers", runtime.NumCPU(), "")
+	multi := fs.Bool("multi", false, "three ledgers (two sharing a bucket, one created mid-history)")
 	_ = fs.Parse(args)
 
-	cases := genCases(*seed, *n, *length, *scale, false, *features)
+	cases := genCases(*seed, *n, *length, *scale, *multi, *features)
 	runCases(cases, *out, *casesOut, *workers)
 }
 
